@@ -261,9 +261,11 @@ func (vc *VC) pixOffset(st *State, args []Val, bpp int64) []Outcome {
 		vc.pureCache = map[string][]Val{}
 	}
 	var off Term
+	fresh := false
 	if c, ok := vc.pureCache[key]; ok {
 		off = c[0].(Term)
 	} else {
+		fresh = true
 		off = vc.freshTerm("pixoff", vc.intSort(64))
 		off.Signed = true
 		vc.pureCache[key] = []Val{off}
@@ -271,7 +273,33 @@ func (vc *VC) pixOffset(st *State, args []Val, bpp int64) []Outcome {
 		vc.decl(fmt.Sprintf("(assert (= %s %s)) ;anchor=%s", off.E, formula.E, "pixoffdef!"+off.E))
 	}
 	inside := And(vc.iLe(mn.F[0].(Term), x, true), vc.iLt(x, mx.F[0].(Term), true), vc.iLe(mn.F[1].(Term), y, true), vc.iLt(y, mx.F[1].(Term), true))
-	st.Fact(Implies(inside, And(vc.iLe(vc.idx(0), off, true), vc.iLe(vc.iAdd(off, vc.idx(bpp)), pix.Len, true), vc.iLe(off, vc.idxBig(maxLenBound), true))))
+	insideFact := Implies(inside, And(vc.iLe(vc.idx(0), off, true), vc.iLe(vc.iAdd(off, vc.idx(bpp)), pix.Len, true), vc.iLe(off, vc.idxBig(maxLenBound), true)))
+	st.Fact(insideFact)
+	if fresh {
+		// The facts below are about immutable quantities (this offset, the image's Rect, Stride and len(Pix) as they
+		// were at the call), so they are stated once, as axioms included in every query that mentions the offset:
+		// the spec side evaluates PixOffset in older states (prev(...)) whose facts would not reach the obligation.
+		axiom := func(t Term) { vc.decl(fmt.Sprintf("(assert %s) ;anchor=%s", t.E, off.E)) }
+		axiom(insideFact)
+		// The whole row of a y inside Rect lies within Pix (A-IMG): with rowstart = off - (x-Min.X)*bpp,
+		// 0 <= rowstart <= rowstart + Dx*bpp <= len(Pix). Linear in the offsets (bpp is a constant), so code that
+		// computes a row's first offset once and walks along the row stays provable.
+		insideY := And(vc.iLe(mn.F[1].(Term), y, true), vc.iLt(y, mx.F[1].(Term), true))
+		saneX := And(vc.iLe(vc.idx(-0x40000000), mn.F[0].(Term), true), vc.iLe(mn.F[0].(Term), mx.F[0].(Term), true), vc.iLe(mx.F[0].(Term), vc.idx(0x40000000), true),
+			vc.iLe(vc.idx(-0x40000000), x, true), vc.iLe(x, vc.idx(0x40000000), true))
+		rowstart := vc.iSub(off, vc.iMul(vc.iSub(x, mn.F[0].(Term)), vc.idx(bpp)))
+		rowend := vc.iAdd(rowstart, vc.iMul(vc.iSub(mx.F[0].(Term), mn.F[0].(Term)), vc.idx(bpp)))
+		axiom(Implies(And(insideY, saneX), And(vc.iLe(vc.idx(0), rowstart, true), vc.iLe(rowstart, rowend, true), vc.iLe(rowend, pix.Len, true))))
+		// Offsets of the same image and the same row differ by bpp per column: a consequence of the defining
+		// formula (no assumption), stated between this offset and the first one seen for that row.
+		rowKey := fmt.Sprintf("pixrow|%d|%s|%s", p.Cell.ID, stride.E, y.E)
+		if c, ok := vc.pureCache[rowKey]; ok {
+			x0, off0 := c[0].(Term), c[1].(Term)
+			axiom(Eq(off, vc.iAdd(off0, vc.iMul(vc.iSub(x, x0), vc.idx(bpp)))))
+		} else {
+			vc.pureCache[rowKey] = []Val{x, off}
+		}
+	}
 	return one(st, off)
 }
 
